@@ -313,6 +313,10 @@ def run(ctx):
             ctx.ob(5, "K7", f"the retry asks for twice the failed container's {res.upper()}", okd, f, c, construct=f"retry request {res} = 2*old", detail=f"definitions reaching the Assignment: {sorted(vals)}")
     sched.ob_never_suspends(ctx, 4, "priority-pool", "priority-pool")
     sched.fixture_suspend_present(ctx, 4)
+    # "only the unfinished operators of the failed container are retried, together": the retry is cut from the result's op list, which therefore
+    # has to be the ended container's whole list (C09#3/#4)
+    from . import c09
+    c09.check_results(Renumber(ctx, {3: 5, 4: 5}), 3)
 
 
 def _loopenv(lp) -> dict:
